@@ -72,6 +72,7 @@ static void run_one(const Plan &p, const gen::Csr &A0, const std::vector<double>
                 prm.put("precond.coarsening.nullspace.rows", n);
                 prm.put("precond.coarsening.nullspace.B", nsB.data());
             }
+            apply_vary_params(p, prm, "precond.coarsening.", coarsening_names[p.get("coarsening")], "precond.relax.", relax_names[p.get("relax")], "solver.", solver_names[p.get("solver")], true);
             std::vector<double> x(n, 0.0), u(n, 0.0);
             size_t it; double res;
             if (kind == K_AMG) {
@@ -94,6 +95,7 @@ static void run_one(const Plan &p, const gen::Csr &A0, const std::vector<double>
             o.vals.push_back((double)it); o.vals.push_back(res);
         } else if (kind == K_RELAX) {
             prm.put("precond.type", relax_names[p.get("relax")]);
+            apply_vary_params(p, prm, "", "", "precond.", relax_names[p.get("relax")], "solver.", solver_names[p.get("solver")], true);
             RelaxSolver S(A.tie(), prm);
             std::vector<double> x(n, 0.0), u(n, 0.0);
             S.precond().apply(rhs, u);
@@ -158,6 +160,7 @@ Plan generate(uint64_t seed, uint64_t run, bool thorough) {
     p.set("nt", r.chance(0.6) ? 1 : draw_nt(r, 2, 32), 1);
     p.set("prehistory", r.range(0, 3), 0);
     p.set("heap_seed", (long)(r.next() >> 16), 0);
+    draw_vary_params(r, p, 0.5);
     // bound the simulated work of one world (each is executed five times): a non-converging 100-iteration W-cycle solve on
     // a 14-thread team is minutes of fiber switching and tests nothing a 10-iteration one does not
     if (p.get("nt") > 4 && p.get("maxiter") > 12) p.set("maxiter", 12, 1);
@@ -249,6 +252,7 @@ Result execute(const Plan &p) {
     s.set("coarsening", coarsening_names[p.get("coarsening")]); s.set("relax", relax_names[p.get("relax")]); s.set("solver", solver_names[p.get("solver")]);
     s.set("coarse_enough", p.get("coarse_enough")); s.set("max_levels", p.get("max_levels")); s.set("levels", (long)levels); s.set("nt", nt);
     s.set("prehistory", p.get("prehistory")); s.set("nullspace_vectors", p.get("coarsening") != 0 ? p.get("nullspace") : 0); s.set("outcome", outs[0].exc.empty() ? "ok" : outs[0].exc);
+    { boost::property_tree::ptree tmp; std::string d = apply_vary_params(p, tmp, "coarsening.", coarsening_names[p.get("coarsening")], "relax.", relax_names[p.get("relax")], "solver.", solver_names[p.get("solver")], true); if (!d.empty()) { s.set("varied_parameters", d); res.counts["varied_parameter_worlds"]++; } }
     js::Value hs = js::Value::array();
     for (int k = 0; k < nheaps; ++k) hs.push(fmt("%s/recycle=%d/shift=%d", sim::heap_fill_name(heaps[k].fill), heaps[k].recycle, heaps[k].shift));
     s.set("heaps", hs);
